@@ -216,7 +216,12 @@ def execute(case):
             finally:
                 s2.close()
             if disk.get(bid) != plain.raw():
-                fail("adopt", "found-block-not-in-store", "the reopened store does not hold the found block byte-identically (%s)" % tag)
+                from vf.props.c08 import faulty_model
+                model = faulty_model([led.nodes[i].blk for i in led.order] + [plain])
+                if disk.get(bid) == model.get(bid) and disk.get(bid) is not None:
+                    info["c08_f1_seen"] = 1        # a pooled transaction's id is already stored with a block of another fork: C08's known finding, not judged here
+                else:
+                    fail("adopt", "found-block-not-in-store", "the reopened store does not hold the found block byte-identically (%s)" % tag)
         net.drain(None, only=[node])
         for k, w in enumerate(peers):
             w.collect()
@@ -333,6 +338,7 @@ def run(shard, tier, seed):
         res.count("finds_assembly_clock_not_after_head", 1 if info["early_clock"] else 0)
         res.count("deep_states", 1 if deepd else 0)
         res.count("second_finds_on_same_parent", info.get("second_find", 0))
+        res.count("c08_f1_seen(not judged)", info.get("c08_f1_seen", 0))
         if info["pool"] or info["early_clock"] or info["boundary"]:
             res.nontrivial(env.digest(case))
         if res.evaluations in (1, 9):
